@@ -153,7 +153,7 @@ class Ctx:
         for cl in c.of('let'):
             for k2, a in cl.kw.items():
                 env_post[k2] = self.ev(a, env_post)
-        for cl in c.of('ensures'):
+        for cl in c.of('ensures') + c.of('ensures_assumed'):
             for a in cl.args:
                 try:
                     ok = self.ev(a, env_post)
@@ -192,6 +192,22 @@ class Ctx:
                 np.random.set_state(st)
                 if isinstance(again, np.ndarray) and np.shares_memory(again, result):
                     return {'status': 'violated', 'clause': 'fresh:result', 'observed': 'two identical calls return arrays sharing memory'}
+                # ... nor an object the library keeps (a cache that stores what it hands out): when the function is deterministic
+                # (the repeat equals the first answer), the caller scribbles over both answers and asks a third time
+                if isinstance(again, np.ndarray) and again.shape == result.shape and again.dtype == result.dtype and again.dtype.kind in 'fiub' and _same(again, result) and result.flags.writeable and not ('random_state' in kwargs and kwargs['random_state'] is None):
+                    snap = result.copy()
+                    try:
+                        result[...] = (~result) if result.dtype.kind == 'b' else result + 7
+                        again[...] = (~again) if again.dtype.kind == 'b' else again + 7
+                        st = np.random.get_state()
+                        third = fn(**{k: copy.deepcopy(v) for k, v in old.items() if k in kwargs})
+                        np.random.set_state(st)
+                    except Exception:      # noqa: BLE001
+                        third = None
+                    finally:
+                        result[...] = snap
+                    if isinstance(third, np.ndarray) and third.shape == snap.shape and not _same(third, snap):
+                        return {'status': 'violated', 'clause': 'fresh:result', 'observed': 'after the caller modified the returned array in place, an identical call returns %s instead of %s (the library kept a reference to what it handed out)' % (_short(third), _short(snap))}
         return {'status': 'ok', 'outcome': 'return'}
 
 
@@ -289,6 +305,23 @@ def gen_values(sort_src, rng, p_hint, budget):
                 if rep == 1:
                     rng.shuffle(perm)
                 out.append(M[perm, :][:, perm])
+        # node labels of 8 and above: a python set of small ints iterates in hash order, which is no longer increasing there
+        # ({1, 8} -> 8, 1; {3, 9} -> 9, 3): colliders / parent sets mixing labels below and above 8, as DAG, weighted DAG and PDAG
+        for (p, edges, und) in ((10, [(1, 3), (9, 3), (8, 2), (1, 2), (3, 5), (9, 5), (0, 9)], [(4, 6)]),
+                                (9, [(1, 2), (8, 2), (1, 0), (8, 0), (2, 0)], []),
+                                (12, [(3, 1), (9, 1), (10, 4), (2, 4), (11, 7), (3, 7), (8, 7)], [(5, 6), (0, 5)])):
+            M = np.zeros((p, p), dtype=dt)
+            for (a, b) in edges:
+                M[a, b] = 1
+            out.append(M.copy())
+            for (a, b) in und:
+                M[a, b] = M[b, a] = 1
+            out.append(M.copy())
+            if dt is float:
+                Wm = np.zeros((p, p))
+                for k, (a, b) in enumerate(edges):
+                    Wm[a, b] = (1.0, -1.0, 0.5, -2.0)[k % 4]
+                out.append(Wm)
         # p = 4: seeded sample of signed DAG weightings (weights +-1, 1/2, 2) and of binary PDAGs
         for _ in range(budget):
             p = 4
@@ -307,6 +340,15 @@ def gen_values(sort_src, rng, p_hint, budget):
             if dt is int:
                 M = np.round(M).astype(int)
             out.append(M.astype(dt))
+        return out
+    if s == 'Arr2o':
+        # edge-ordered DAGs (input of label_edges): every acyclic matrix of the Arr2 domain, ordered by two independent constructions
+        out = []
+        for M in gen_values('Arr2', rng, p_hint, budget):
+            if M.shape[0] == M.shape[1] and _acyclic(M):
+                out.append(dsl.chickering_order(M))
+                if len(M) >= 3:
+                    out.append(dsl.chickering_order(M, flip=True))
         return out
     if s == 'SetOf(Int)':
         return [set(c) for r in range(0, 4) for c in itertools.combinations(range(4), r)]
@@ -469,7 +511,28 @@ def search(ctx, q, seed=0, budget=300, max_calls=20000, stop_on_first=True):
                        'clause': r['clause'], 'observed': r['observed']}
             if stop_on_first:
                 break
-    return {'calls': calls, 'distinct_nontrivial': nontriv, 'domain': total}, witness
+    # inputs beyond the small domain that a size-dependent branch may need (each evaluated once)
+    for kw in EXTRA_CASES.get(q, []):
+        if witness is not None and stop_on_first:
+            break
+        kwargs = {k: copy.deepcopy(v) for k, v in kw.items() if real is None or k in real or k in [n for n, _ in c.params]}
+        r = ctx.check_call(q, kwargs, c, {})
+        if r['status'] == 'pre-false':
+            continue
+        calls += 1
+        nontriv += 1
+        if r['status'] == 'violated' and witness is None:
+            witness = {'function': q, 'inputs': {n: _jsonable(v) for n, v in kwargs.items()}, 'ghost': {}, 'clause': r['clause'], 'observed': r['observed']}
+    return {'calls': calls, 'distinct_nontrivial': nontriv, 'domain': total + len(EXTRA_CASES.get(q, []))}, witness
+
+
+EXTRA_CASES = {
+    # large sparse graphs (a fast path for big p would only be reached here); contract = the exact entry-by-entry draw formula
+    'sempler.generators.dag_avg_deg': [dict(p=600, k=30.0, w_min=0.5, w_max=2.0, return_ordering=False, random_state=3),
+                                       dict(p=520, k=3.0, w_min=1.0, w_max=1.0, return_ordering=True, random_state=0),
+                                       dict(p=64, k=63.0, w_min=-2.0, w_max=-1.0, return_ordering=True, random_state=1)],
+    'sempler.generators.dag_full': [dict(p=130, w_min=0.5, w_max=2.0, return_ordering=True, random_state=2)],
+}
 
 
 def _jsonable(v):
